@@ -2,39 +2,48 @@
 import numbers
 from ..core import Prop
 from .. import tlc, enum
-from ..backend import dyadic, bits_wire
+from ..backend import dyadic, dyadic_fine, bits_wire
 from .c02 import _exc
 
 
-def coef3(c):
+def coef3(c, fine=False):
     """complex -> (re, im, e) over a common denominator 2^e; e = 99 if not exactly dyadic"""
     if hasattr(c, "item"):
         c = c.item()
     c = complex(c)
-    a, b = dyadic(c.real), dyadic(c.imag)
+    if fine:
+        emax = 24 if fine is True else fine
+        dy = lambda x: dyadic_fine(x, emax)
+    else:
+        dy = dyadic
+    a, b = dy(c.real), dy(c.imag)
     if a is None or b is None:
         return (0, 0, 99)
     e = max(a[1], b[1])
     return (a[0] * 2 ** (e - a[1]), b[0] * 2 ** (e - b[1]), e)
 
 
-def pv(be, obj, n):
+def pv(be, obj, n, fine=False):
     """project a library value to {t, terms}"""
     P = be.paulialg
+    if fine:
+        c3 = lambda c: coef3(c, True)
+    else:
+        c3 = coef3
     if isinstance(obj, numbers.Number) or (hasattr(obj, "ndim") and getattr(obj, "ndim", 1) == 0) or (hasattr(obj, "dim") and callable(obj.dim) and obj.dim() == 0):
-        return {"t": "K", "terms": [[[0] * n + [0]] + list(coef3(obj))]}
+        return {"t": "K", "terms": [[[0] * n + [0]] + list(c3(obj))]}
     if hasattr(P, "PauliMonomial") and isinstance(obj, P.PauliMonomial):
-        return {"t": "M", "terms": [[be.p_pauli(obj)] + list(coef3(obj.c))]}
+        return {"t": "M", "terms": [[be.p_pauli(obj)] + list(c3(obj.c))]}
     if isinstance(obj, P.Pauli):
         return {"t": "P", "terms": [[be.p_pauli(obj), 1, 0, 0]]}
     if isinstance(obj, P.PauliPolynomial):
         ws = be.p_list(obj)
         cs = be.tolist(obj.cs)
-        return {"t": "Q", "terms": [[w] + list(coef3(c)) for w, c in zip(ws, cs)]}
+        return {"t": "Q", "terms": [[w] + list(c3(c)) for w, c in zip(ws, cs)]}
     if isinstance(obj, P.PauliList):
         return {"t": "L", "terms": [[w, 1, 0, 0] for w in be.p_list(obj)]}
     if hasattr(obj, "tolist"):      # array of numbers (trace of a list)
-        return {"t": "A", "terms": [[[0] * n + [0]] + list(coef3(c)) for c in obj.tolist()]}
+        return {"t": "A", "terms": [[[0] * n + [0]] + list(c3(c)) for c in obj.tolist()]}
     raise TypeError("unprojectable value of type %s" % type(obj).__name__)
 
 
@@ -117,6 +126,14 @@ class C15(Prop):
             yield {"k": "live", "seq": seq, "pkg": "py"}
             if t % 3 == 0:
                 yield {"k": "live", "seq": [s for s in seq if "M" not in s[1:3]], "pkg": "torch"}
+        # scalars next to the units: c = u * (1 +- 2^-k) must not be taken for the unit u (pyclifford, double precision)
+        for i in sorted(self.pool):
+            typ, terms = self.pool[i]
+            if typ in ("P", "M", "Q") and all(t[3] == 0 for t in terms):
+                for k in (14, 17, 20, 23):
+                    for u in range(4):
+                        for sg in (1, -1):
+                            yield {"k": "fine", "i": i, "kk": k, "u": u, "sg": sg, "pkg": "py"}
         for i in sorted(self.pool):
             typ, terms = self.pool[i]
             if typ == "Q":
@@ -157,6 +174,22 @@ class C15(Prop):
             return [rec]
         if scn["k"] == "live":
             return self._live(scn, be, n)
+        if scn["k"] == "fine":
+            typ, terms = self.pool[scn["i"]]
+            k = scn["kk"]
+            num = 2 ** k + scn["sg"]
+            re, im = [(num, 0), (0, num), (-num, 0), (0, -num)][scn["u"]]
+            rec = {"op": "mul", "n": n, "fine": True, "x": {"t": "K", "terms": [[[0] * n + [0], re, im, k]]}, "expect_refuse": False, "E": k}
+            try:
+                y = mk(be, typ, terms)
+                rec["y"] = pv(be, y, n)
+                c = complex(re, im) / 2 ** k
+                r = (c.real if c.imag == 0 else c) * y
+                rec["ret"] = pv(be, r, n, fine=True)
+                rec["y1"] = pv(be, y, n)
+            except Exception as e:
+                rec["exc"] = _exc(e)
+            return [rec]
         out = []
         stack = []
         for step in scn["prog"]:
